@@ -43,12 +43,16 @@ class Supertrend(Indicator):
             lower = self.reading(f"{self.name}_HL") - mid_atr
 
             if self.prev_exists(f"{self.name}_data.lower"):
+                prev_direction = self.prev_reading(f"{self.name}.direction")
+
                 if self.reading("close") > self.prev_reading(f"{self.name}_data.upper"):
                     direction = 1
                 elif self.reading("close") < self.prev_reading(f"{self.name}_data.lower"):
                     direction = -1
                 else:
-                    direction = self.prev_reading(f"{self.name}.direction")
+                    direction = prev_direction
+
+                if direction == prev_direction:
                     if direction == 1 and lower < self.prev_reading(f"{self.name}_data.lower"):
                         lower = self.prev_reading(f"{self.name}_data.lower")
                     if direction == -1 and upper > self.prev_reading(f"{self.name}_data.upper"):
